@@ -65,6 +65,31 @@ Section C10.
     acts (den (Block i BCol td l)) si (out_struct (Block i BCol td l)) (vstack Ms).
   Proof. exact (BlocksL.blockcol_matrix K k0 kadd kmul leafsem). Qed.
 
+  (* the matrix of `acts` is the dense matrix read off the basis vectors (pytree-leaf then row-major
+     order), i.e. what AbstractLinearOperator.as_matrix builds and what Exec.mat computes *)
+  Theorem matrix_is_basis_columns : forall (f : value K -> option (value K)) si so (M : matrix K),
+    acts f si so M -> columns k0 k1 f si = Some (columns_of k0 (struct_size si) M).
+  Proof. exact (BlocksL.acts_as_columns K k0 k1 kadd kmul ksub kopp Kth). Qed.
+  Theorem blockrow_dense : forall i td (l : list (op K)) (Ms : list (matrix K)) so,
+    List.length l = nleaves td -> l <> [] ->
+    Forall2 (fun b M => acts (den b) (in_struct b) so M) l Ms ->
+    columns k0 k1 (den (Block i BRow td l)) (in_struct (Block i BRow td l)) =
+    Some (columns_of k0 (struct_size (in_struct (Block i BRow td l))) (hstack Ms)).
+  Proof. exact (BlocksL.blockrow_dense K k0 k1 kadd kmul ksub kopp Kth leafsem). Qed.
+  Theorem blockdiag_dense : forall i td (l : list (op K)) (Ms : list (matrix K)),
+    List.length l = nleaves td ->
+    Forall2 (fun b M => acts (den b) (in_struct b) (out_struct b) M) l Ms ->
+    columns k0 k1 (den (Block i BDiag td l)) (in_struct (Block i BDiag td l)) =
+    Some (columns_of k0 (struct_size (in_struct (Block i BDiag td l)))
+            (block_diag k0 (combine Ms (map (fun b => struct_size (in_struct b)) l)))).
+  Proof. exact (BlocksL.blockdiag_dense K k0 k1 kadd kmul ksub kopp Kth leafsem). Qed.
+  Theorem blockcol_dense : forall i td (l : list (op K)) (Ms : list (matrix K)),
+    List.length l = nleaves td -> l <> [] ->
+    Forall2 (fun b M => acts (den b) (in_struct (Block i BCol td l)) (out_struct b) M) l Ms ->
+    columns k0 k1 (den (Block i BCol td l)) (in_struct (Block i BCol td l)) =
+    Some (columns_of k0 (struct_size (in_struct (Block i BCol td l))) (vstack Ms)).
+  Proof. exact (BlocksL.blockcol_dense K k0 k1 kadd kmul ksub kopp Kth leafsem). Qed.
+
   (* ---------- adjointness closure ---------- *)
   Notation adj := (adjoint_pair k0 kadd kmul).
   Theorem blockrow_col_adjoint : forall i i' td (l l' : list (op K)),
@@ -176,6 +201,10 @@ Print Assumptions block_term_is_container.
 Print Assumptions blockrow_matrix.
 Print Assumptions blockdiag_matrix.
 Print Assumptions blockcol_matrix.
+Print Assumptions matrix_is_basis_columns.
+Print Assumptions blockrow_dense.
+Print Assumptions blockdiag_dense.
+Print Assumptions blockcol_dense.
 Print Assumptions blockrow_col_adjoint.
 Print Assumptions blockcol_row_adjoint.
 Print Assumptions blockdiag_adjoint.
@@ -225,3 +254,21 @@ Example c10_adjoint_witness : forall s : struct,
   adjoint_pair 0%Z Z.add Z.mul (denote Z.add Z.mul (fun _ _ => None) (Ident 1%N s))
     (denote Z.add Z.mul (fun _ _ => None) (transpose (Ident 1%N s))).
 Proof. intros s x y fx gy H1 H2. cbn in *. inversion H1; inversion H2; subst. reflexivity. Qed.
+
+(* the executable dense matrix of the correspondence harness (Exec.mat) is `columns` at K = Qc *)
+Example exec_mat_is_columns : forall tb e,
+  Exec.mat tb e =
+  option_map (fun cols => map (map (fun k => Exec.qpair (Qcanon.this k))) cols)
+    (columns Exec.k0 Exec.k1 (Exec.den tb e) (in_struct e)).
+Proof. intros tb e. reflexivity. Qed.
+
+(* stage 2: the hypothesis `acts_as` of the matrix forms holds for the executable semantics of a
+   leaf block whose action is a matrix measured on the real object (dimensions as declared) *)
+Theorem exec_table_leaf_acts_as : forall (tb : Exec.table) i c si so p m,
+  let e : Exec.xop := Prim i c si so p in
+  (i =? 0)%N = false -> Exec.lookup tb (2 * i)%N = Some m ->
+  Forall (fun row => List.length row = struct_size (in_struct e)) m ->
+  List.length m = struct_size (out_struct e) ->
+  acts_as Exec.k0 Qcanon.Qcplus Qcanon.Qcmult (Exec.leafsem tb e) (in_struct e) (out_struct e) m.
+Proof. exact BlocksL.exec_table_leaf_acts_as. Qed.
+Print Assumptions exec_table_leaf_acts_as.
